@@ -90,6 +90,10 @@ func (c ActCase) forward(x tensor.Tensor) (tensor.Tensor, error) {
 	return f(x)
 }
 
+// maxActElems bounds activation inputs: 600 (up to 2400 in the large-shape regime) for the
+// forward check, 200 for the gradient check (set by the generators).
+var maxActElems = 200
+
 var actKinds = []string{"relu", "leaky", "sigmoid", "tanh", "softmax", "softmax"}
 
 func drawActValues(t *rapid.T, n int, softmax bool) []float64 {
@@ -118,7 +122,7 @@ func genActShape(t *rapid.T, c *ActCase) []int {
 	if c.Kind == "softmax" {
 		minRank = 1
 	}
-	s := prog.DrawShapeN(t, minRank, 5, 4, 200, rapid.Bool().Draw(t, "distinctdims"))
+	s := prog.DrawShapeN(t, minRank, 5, 4, maxActElems, rapid.Bool().Draw(t, "distinctdims"))
 	c.NilConf = rapid.IntRange(0, 4).Draw(t, "nilconf") == 0
 	if c.Kind == "leaky" {
 		c.M = rapid.SampledFrom([]float64{0.01, 0.2, 0, 1, -0.5, 3, 1e-6}).Draw(t, "m")
@@ -130,6 +134,8 @@ func genActShape(t *rapid.T, c *ActCase) []int {
 }
 
 func genC14(t *rapid.T) ActCase {
+	maxActElems = 600
+	defer func() { maxActElems = 200 }()
 	c := ActCase{Kind: rapid.SampledFrom(actKinds).Draw(t, "kind")}
 	s := genActShape(t, &c)
 	v := drawActValues(t, ref.Prod(s), c.Kind == "softmax")
@@ -394,6 +400,13 @@ func checkC15(c ActCase) *Failure {
 		}
 		if err := tensor.BackPropagate(wy); err != nil {
 			return failf("BackPropagate through %s returned error: %v", c.Kind, err)
+		}
+		// zero-grad, as a loop does: every tensor of the warm-up round that holds a gradient
+		// becomes a fresh leaf again right before the tensors of the real round are created
+		for _, x := range wl {
+			if x.Gradient() != nil {
+				x.ResetGradContext(true)
+			}
 		}
 	}
 	lv, err := prog.RunLib(c.Up)
